@@ -24,10 +24,101 @@ BEH_STUN = "dsSleEgx6"       # per-request behaviours for a STUN server
 BEH_TURN = "daeErgxmnu"      # for a TURN server ('a' = 401 then signed success)
 
 
+def completion_oracles(ev, done_t, cands, servers, rc, rto):
+    """two consequences of the statement that need the packet trace:
+    done-early   — completion may be announced only when every request sent to a server has been answered (an answer carrying
+                   its transaction id was delivered) or has run through its whole retransmission schedule (rc transmissions and
+                   T + 2T + .. + T = the C19 timer's total, here 4T for rc = 3);
+    missing-candidate — every transaction-matched success answer delivered before completion yields a candidate with the
+                   address it supplied (server-reflexive for STUN, relayed for an authenticated TURN allocation)."""
+    bad = []
+    kind_of = {a: k for k, a, _ in servers}
+    reqs, answered, srv_ev, nreq = {}, {}, {}, {}
+    redirected = set()
+    for e in ev:
+        m = re.match(r"t=(\d+) tx A (\S+)->(\S+) len=\d+ stun class=0 method=(\d+) .*txid=(\w+)", e)
+        if m and m.group(3).endswith(":3478") and m.group(4) in ("1", "3"):
+            r = reqs.setdefault(m.group(5), dict(first=int(m.group(1)), n=0, src=m.group(2), dst=m.group(3), method=m.group(4)))
+            if int(m.group(1)) <= done_t:
+                r["n"] += 1
+            continue
+        m = re.match(r"t=(\d+) rx A (\S+)->(\S+) len=\d+ stun class=([23]) method=(\d+) .*err=(\d+) .*txid=(\w+)", e)
+        if m:
+            answered.setdefault(m.group(7), (int(m.group(1)), int(m.group(4)), m.group(2)))
+            if m.group(6) == "300" and int(m.group(1)) <= done_t:
+                redirected.add(m.group(2))     # a TURN redirect moves EVERY item of that server to the alternate server
+            continue
+        m = re.match(r"t=(\d+) server (\S+) req method=(\d+) behaviour=(\S) authed=(\d) txid=(\w+) from=(\S+)", e)
+        if m:
+            nreq[m.group(2)] = nreq.get(m.group(2), 0) + 1
+            srv_ev.setdefault(m.group(6), []).append((m.group(4), int(m.group(5)), nreq[m.group(2)], m.group(2)))
+    total = rto * (2 ** (rc - 1) - 1) + rto          # T + 2T + .. then the final (halved) wait = T: 4T for rc = 3
+    base_comp = {c[2]: c[1] for c in cands if c[0] == 0}
+    for txid, r in reqs.items():
+        if r["first"] > done_t:
+            continue
+        a = answered.get(txid)
+        if a is None or a[0] > done_t:
+            if r["dst"] in redirected:
+                continue
+            if r["n"] < rc or done_t < r["first"] + total - 25:
+                bad.append(("done-early", f"gathering-done announced at t={done_t} while the request {txid[:8]}.. sent from {r['src']} to "
+                                          f"{r['dst']} at t={r['first']} was still outstanding ({r['n']} of {rc} transmissions, no answer "
+                                          f"delivered, schedule ends at t={r['first'] + total})"))
+            continue
+        if a[1] != 2 or a[0] > r["first"] + total - 25:
+            continue      # not a success, or delivered when the transaction had already timed out and been forgotten
+        behs = srv_ev.get(txid, [])
+        comp = base_comp.get(r["src"])
+        if comp is None:
+            continue
+        if kind_of.get(r["dst"]) == "stun" and r["method"] == "1":
+            want = set()
+            for b, _, _, _ in behs:
+                if b in "sSl":
+                    # libnice's redundancy rule for reflexive/relayed candidates of one component compares the IP only
+                    # (discovery.c priv_add_local_candidate_pruned, nice_address_equal_no_port)
+                    want.add("192.0.2." + r["dst"].split(":")[0].split(".")[-1] + ":")
+                elif b == "6":
+                    want.add("2001:db8::7")
+            if want and all(b in "sSl6" for b, _, _, _ in behs):
+                if not any(c[0] == 1 and c[1] == comp and any(c[2].startswith(w) or (w == '2001:db8::7' and w in c[2]) for w in want) for c in cands):
+                    bad.append(("missing-candidate", f"the STUN server answered request {txid[:8]}.. from {r['src']} with success at "
+                                                     f"t={a[0]} (before completion at t={done_t}) supplying {sorted(want)}, but no "
+                                                     f"server-reflexive candidate with that address exists for component {comp}"))
+        elif kind_of.get(r["dst"]) == "turn" and r["method"] == "3":
+            if behs and all(b in "sSl" and au == 1 for b, au, _, _ in behs):
+                want = {r["dst"].split(":")[0] + ":"}
+                if not any(c[0] == 3 and c[1] == comp and any(c[2].startswith(w) for w in want) for c in cands):
+                    bad.append(("missing-candidate", f"the TURN server granted the authenticated allocation {txid[:8]}.. from {r['src']} at "
+                                                     f"t={a[0]} (before completion at t={done_t}) with relayed address in {sorted(want)}, "
+                                                     f"but no relayed candidate with that address exists for component {comp}"))
+    return bad
+
+
+# directed configurations, run before the generated ones: (naddr, ncomp, stun script or None, [turn scripts], loss, latency)
+DIRECTED = [
+    (1, 1, "s", ["a"], 0, 1),          # STUN next to TURN on one socket (fixed: 36f5723)
+    (1, 1, "ds", [], 0, 1),            # first binding request lost, the retransmission is answered
+    (2, 2, "ds", [], 0, 40),
+    (1, 1, "dds", [], 0, 1),           # answered only on the last transmission
+    (1, 1, "l", [], 0, 1),             # answer later than the first RTO
+    (1, 1, None, ["da"], 0, 1),        # first allocate lost
+    (1, 2, "s", ["a", "a"], 0, 5),
+    (2, 1, "6", ["a"], 0, 1),
+    (1, 1, "ddd", [], 0, 1),           # silent server: full schedule, then completion
+    (1, 1, "s", ["ra"], 0, 1),         # redirect to a silent alternate server
+]
+
+
 def scenario(args):
     exe, seed, tier = args
     import random
     rng = random.Random(f"C20/{seed}")
+    directed = None
+    if isinstance(seed, tuple):
+        directed = DIRECTED[seed[1]]
+        seed = 777000 + seed[1]
     ncomp = rng.randint(1, 2)
     naddr = rng.randint(1, 2)
     use_stun = rng.random() < 0.7
@@ -37,19 +128,30 @@ def scenario(args):
     s = simlib.Sim(exe)
     servers = []
     bad, known = [], []
+    if directed:
+        naddr, ncomp, dstun, dturn, dloss, dlat = directed
+        use_stun, nturn = dstun is not None, len(dturn)
     try:
         s.op(f"net seed {seed}")
-        s.op(f"net latency 1 {rng.choice([1, 5, 40])}")
+        lat = rng.choice([1, 5, 40])
         loss = rng.choice([0, 0, 0, 20, 40])
+        dup = rng.choice([0, 0, 15])
+        if directed:
+            lat, loss, dup = dlat, dloss, 0
+        s.op(f"net latency 1 {lat}")
         s.op(f"net loss {loss} {rc - 1}")
-        s.op(f"net dup {rng.choice([0, 0, 15])}")
+        s.op(f"net dup {dup}")
         if use_stun:
             script = "".join(rng.choice(BEH_STUN) for _ in range(rng.randint(1, 4)))
+            if directed:
+                script = dstun
             s.op(f"server 127.0.0.50:3478 stun {script}")
             servers.append(("stun", "127.0.0.50:3478", script))
         for k in range(nturn):
             script = "".join(rng.choice(BEH_TURN) for _ in range(rng.randint(1, 4)))
-            if rng.random() < 0.08 and endless is None:
+            if directed:
+                script = dturn[k]
+            elif rng.random() < 0.08 and endless is None:
                 script = rng.choice(["n", "un", "r"])    # endless 438 / 401+438 / 300
                 endless = script
             elif script[-1] in "nur":
@@ -118,6 +220,8 @@ def scenario(args):
                 bad.append(("unconfirmed-candidate", f"relayed candidate {addr} was supplied by no success answer"))
         if len(set(cands)) != len(cands):
             bad.append(("duplicate-candidate", str(cands)))
+        if dones and not endless:
+            bad += completion_oracles(ev, dones[0], cands, servers, rc, rto)
         return dict(seed=seed, bad=bad, known=known, script=s.script, servers=servers, ncands=len(cands),
                     done_at=(dones[0] - t0) if dones else None, endless=endless)
     except simlib.SimDied as e:
@@ -138,7 +242,8 @@ def run(tier, seed):
             chk.note("harness build failed: " + log[-1500:]); st["libs"] = False; st["log"] = log
         else:
             n = 300 if tier == "quick" else 6000
-            res = simlib.run_parallel(scenario, [(exe, seed * 100000 + i, tier) for i in range(n)])
+            res = simlib.run_parallel(scenario, [(exe, ("directed", i), tier) for i in range(len(DIRECTED))] +
+                                      [(exe, seed * 100000 + i, tier) for i in range(n)])
             kinds, behs = {}, {}
             k3 = None
             for r in res:
